@@ -54,6 +54,15 @@ func main() {
 		os.Exit(cmdReplay(os.Args[2:]))
 	case "list":
 		cmdList()
+	case "spec": // gosmt spec <property> <lemma-id-or-harness-name>: the registered spec as JSON
+		for _, d := range registry[os.Args[2]] {
+			if d.ID == os.Args[3] || d.Spec.Name == os.Args[3] {
+				j, _ := json.Marshal(d.Spec)
+				fmt.Println(string(j))
+				return
+			}
+		}
+		os.Exit(2)
 	default:
 		fmt.Fprintln(os.Stderr, "unknown command", os.Args[1])
 		os.Exit(2)
